@@ -742,15 +742,30 @@ impl Stringify for Value {
                 double_brace_location,
                 binding_map_keys: _,
             } => {
+                /// does the printed form of a mixture piece start with `{{`
+                fn starts_with_binding(expr: &Expression) -> bool {
+                    match expr {
+                        Expression::LitStr { .. } => false,
+                        Expression::Plus { left, .. } => starts_with_binding(left),
+                        _ => true,
+                    }
+                }
                 fn split_expression<'s, W: FmtWrite>(
                     expr: &Expression,
                     stringifier: &mut Stringifier<'s, W>,
                     start_location: &Range<Position>,
                     end_location: &Range<Position>,
+                    followed_by_binding: bool,
                 ) -> FmtResult {
                     match expr {
                         Expression::LitStr { value, location } => {
-                            stringifier.write_token(&escape_text(value), None, location)?;
+                            let mut text = escape_text(value).into_owned();
+                            if followed_by_binding && text.ends_with('{') {
+                                // (a `{` directly before a binding would join its `{{`)
+                                text.pop();
+                                text.push_str("&#123;");
+                            }
+                            stringifier.write_token(&text, None, location)?;
                             return Ok(());
                         }
                         Expression::ToStringWithoutUndefined { value, location } => {
@@ -778,8 +793,20 @@ impl Stringify for Value {
                             }
                             let split = is_piece(left) && is_piece(right);
                             if split {
-                                split_expression(&left, stringifier, start_location, location)?;
-                                split_expression(&right, stringifier, location, end_location)?;
+                                split_expression(
+                                    &left,
+                                    stringifier,
+                                    start_location,
+                                    location,
+                                    starts_with_binding(right),
+                                )?;
+                                split_expression(
+                                    &right,
+                                    stringifier,
+                                    location,
+                                    end_location,
+                                    followed_by_binding,
+                                )?;
                                 return Ok(());
                             }
                         }
@@ -795,6 +822,7 @@ impl Stringify for Value {
                     stringifier,
                     &double_brace_location.0,
                     &double_brace_location.1,
+                    false,
                 )?;
             }
         }
